@@ -14,6 +14,14 @@ import sys, os, json, time, random, argparse, importlib, traceback
 from . import common as C
 from . import translate
 from . import translate_vec
+from . import translate_sets
+
+# per-group bridge families: (lemma prefix, umbrella module, lemma -> module table, unit prefix in t1_fallback_units,
+#                           key of the `untranslatable unit -> lemmas about it / its callers` table)
+BRIDGE_FAMILIES = [
+  ('DK.BridgeVec.', 'DK.Lemmas.BridgeVec', translate_vec.bridge_modules, 'vec.', 't1_vec_fallback_lemmas'),
+  ('DK.BridgeSets.', 'DK.Lemmas.BridgeSets', translate_sets.bridge_modules, 'sets.', 't1_sets_fallback_lemmas'),
+]
 
 
 class Op:
@@ -65,15 +73,17 @@ def run(pid, tier, seed, replay=None):
   if prop.uses_t1:
     t1 = translate.regenerate_all(C.REPO)
     info.update({'t1_units': t1['t1_units'], 't1_fallback_units': t1['t1_fallback_units']})
-    if t1.get('t1_vec_t2_only'):
-      info['t1_vec_t2_only'] = t1['t1_vec_t2_only']      # vector units read but outside the T1v subset: tied by T2 only
-    vec_lemmas = t1.get('t1_vec_fallback_lemmas', {})      # untranslatable vector unit -> bridge lemmas about it / its callers
+    for k in ('t1_vec_t2_only', 't1_sets_t2_only'):
+      if t1.get(k):
+        info[k] = t1[k]      # vector / set-level units read but outside the T1v / T1s subset: tied by T2 only
     elsewhere = []
     for u in t1['t1_fallback_units']:
-      if u.startswith('vec.'):
-        # a vector unit concerns this property only through the bridge lemmas the property audits (blast radius:
-        # the unit and the units that call it); otherwise it is recorded in the evidence and belongs to other checks
-        if not set(vec_lemmas.get(u.split(' @')[0][4:], [])) & set(prop.bridge):
+      fam = [f for f in BRIDGE_FAMILIES if u.startswith(f[3])]
+      if fam:
+        # a vector / set-level unit concerns this property only through the bridge lemmas the property audits (blast
+        # radius: the unit and the units that call it); otherwise it is recorded in the evidence and belongs to other checks
+        lemmas = t1.get(fam[0][4], {}).get(u.split(' @')[0][len(fam[0][3]):], [])
+        if not set(lemmas) & set(prop.bridge):
           elsewhere.append(u)
           continue
       red.append(('t1-untranslatable', u, 'source unit is outside the translatable subset'))
@@ -91,12 +101,13 @@ def run(pid, tier, seed, replay=None):
       return 2
   # proof obligations: {module: [theorem names]}; `theorems` may be a plain list (all in lean_module)
   groups = dict(prop.theorems) if isinstance(prop.theorems, dict) else {prop.lean_module: list(prop.theorems)}
-  vec_modules = translate_vec.bridge_modules() if any(b.startswith('DK.BridgeVec.') for b in prop.bridge) else {}
+  tables = {f[0]: (f[2]() if any(b.startswith(f[0]) for b in prop.bridge) else {}) for f in BRIDGE_FAMILIES}
   for b in prop.bridge:
     # every bridge lemma is built and audited from the module that proves it: scalar kernels in DK.Lemmas.Bridge, vector
-    # bodies in DK.Lemmas.BridgeVec.<Group> (table read off the Lean sources), so that a broken unit of another source
-    # group does not stop this property's own obligations from compiling
-    bmod = vec_modules.get(b, 'DK.Lemmas.BridgeVec') if b.startswith('DK.BridgeVec.') else 'DK.Lemmas.Bridge'
+    # bodies in DK.Lemmas.BridgeVec.<Group>, set-level glue in DK.Lemmas.BridgeSets.<Group> (tables read off the Lean
+    # sources), so that a broken unit of another source group does not stop this property's own obligations from compiling
+    fam = [f for f in BRIDGE_FAMILIES if b.startswith(f[0])]
+    bmod = tables[fam[0][0]].get(b, fam[0][1]) if fam else 'DK.Lemmas.Bridge'
     groups[bmod] = list(groups.get(bmod, [])) + [b]
   modules = sorted(set(list(groups) + ([prop.lean_module] if prop.lean_module else [])))
   obligations = [t for m in groups for t in groups[m]]
@@ -104,7 +115,7 @@ def run(pid, tier, seed, replay=None):
   ok_proofs, log_proofs = C.lake_build(modules)
   axioms = {}
   if ok_proofs:
-    vec_groups = [m for m in groups if m.startswith('DK.Lemmas.BridgeVec')]
+    vec_groups = [m for m in groups if m.startswith(('DK.Lemmas.BridgeVec', 'DK.Lemmas.BridgeSets'))]
     for m in groups:
       if m not in vec_groups:
         ax, raw = C.audit_axioms(m, groups[m])
